@@ -206,20 +206,23 @@ func (c *Channel) JoinPresence(ctx context.Context, p stanza.Presence, opt ...Op
 	if p.ID == "" {
 		p.ID = attr.RandomID()
 	}
-	p.To = c.addr
 
 	conf := config{}
 	for _, o := range opt {
 		o(&conf)
 	}
 	c.pass = conf.password
+	// The occupant address this join asks for.
+	// Our own address only changes once the room has confirmed it.
+	req := c.addr
 	if conf.newNick != "" {
 		newAddr, err := c.addr.WithResource(conf.newNick)
 		if err != nil {
 			return err
 		}
-		c.addr = newAddr
+		req = newAddr
 	}
+	p.To = req
 
 	ctx, cancel := context.WithCancel(ctx)
 	defer cancel()
@@ -234,6 +237,32 @@ func (c *Channel) JoinPresence(ctx context.Context, p stanza.Presence, opt ...Op
 	case c.join <- joinCtx:
 	case <-ctx.Done():
 		return ctx.Err()
+	}
+	// Presence from the requested address is ours to handle from now on.
+	c.client.managedM.Lock()
+	if c.client.joining == nil {
+		c.client.joining = make(map[string]*Channel)
+	}
+	if c.client.managed == nil {
+		c.client.managed = make(map[string]*Channel)
+	}
+	c.client.joining[req.String()] = c
+	c.client.managedM.Unlock()
+	// If the request does not succeed nothing of it may stay behind: neither the
+	// registration nor the rendezvous with the presence handler (which would
+	// make the next attempt wait for a free slot before even sending).
+	abandon := func() {
+		// Release the presence handler first in case it is about to hand over.
+		cancel()
+		c.client.managedM.Lock()
+		if c.client.joining[req.String()] == c {
+			delete(c.client.joining, req.String())
+		}
+		select {
+		case <-c.join:
+		default:
+		}
+		c.client.managedM.Unlock()
 	}
 	go func(errChan chan<- error) {
 		defer cancel()
@@ -274,10 +303,12 @@ func (c *Channel) JoinPresence(ctx context.Context, p stanza.Presence, opt ...Op
 
 	select {
 	case err := <-errChan:
+		abandon()
 		return err
 	case roomAddr := <-joinChan:
 		c.addr = roomAddr
 	case <-ctx.Done():
+		abandon()
 		return ctx.Err()
 	}
 
